@@ -65,6 +65,10 @@ CLAIMED = {
   "Bounded symbolic model checking of the real highlighter (SimpleFragmenter.Fragment, SimpleHighlighter.BestFragments/BestFragment with container/heap, FragmentQueue, Fragment.Overlaps, SimpleFragmentScorer.Score, OrderTermLocations, TermLocations.MergeOverlapping, HTML and ANSI formatters; unicode/utf8 from source): no panic for every text up to the stated length (invalid UTF-8 included) and every location set with 0 <= start <= end (out of range, overlapping, unsorted); for valid UTF-8 text and token-span locations every fragment is a rune-aligned piece of the text, stripping the markers gives back exactly that piece, every marked span is one match or a merged run, fragments do not overlap and number at most num, and the best fragment contains a match when one fits.",
   "Bounds: no-fault part texts <= 3 bytes (4 thorough) with <= 2 (3) locations; faithfulness part 17 (20) rune layouts of up to 5 runes of 1-4 bytes with <= 2 (3) locations, fragment size 1..3 (4), 1..2 (3) fragments. html.EscapeString replaced by the identity on text free of HTML-special characters. Outside: longer texts, negative offsets (not producible by any analyzer), locations obtained from real searches with the bundled analyzers (arbitrary rune-aligned spans are used instead).",
   "DESIGN.md section 5 C20"),
+ "C17": (
+  "Symbolic equality checks over the real scorers with float arithmetic uninterpreted (so a proved equality holds for every interpretation of + - * / log, IEEE-754 included): BM25Scorer.Explain(...).Value is bit-for-bit Score(...) for all statistics, boost, k1, b, freq and norm; the idf node carries Idf(n,N) and the tree has the documented children; Score is a pure function; CompositeSumScorer: score = (sum of parts in order) * boost, explanation value = score, every node of the explanation tree is sum / boost*sum of its children; through the real conjunction, disjunction and boolean searchers the score with explanations equals the explanation's value and the score without explanations. Counterexamples are confirmed natively (several solver models are tried, since uninterpreted arithmetic can produce natively-equal witnesses).",
+  "Partial claim. Decided: 'explanation value equals the score returned without it', 'a compound query scores the sum of its matching parts times its own boost', explanation tree structure. NOT decided by this technique and outside the claim: finite/positive scores and the monotonicity laws in float64 (FP division/log are beyond the solvers here), and 'each node's value equals the formula stated in its message' for the tf/idf/score nodes (algebraic identities over the reals; would need a real-arithmetic reading of the SSA that is not built — note the idf node of the pinned tree computes log(1 + (N-n) + 0.5/(n+0.5)) while its message states log(1 + (N-n+0.5)/(n+0.5)), see DESIGN.md observations).",
+  "DESIGN.md section 5 C17"),
 }
 
 NA = {
